@@ -148,3 +148,96 @@ Example ex_hash_code_loses_key :
   existsb (fun kv => fst kv =? 0) (live_slots (hash_build_code (fun k => k) 34 ex_keys)) = false /\
   hash_get (fun k => k) 34 (hash_build (fun k => k) 34 ex_keys) 0 = Some 0.
 Proof. vm_compute. repeat split; try reflexivity. discriminate. Qed.
+
+(* ================================================================================================================ *)
+(* Round 2: the FULL history statement (all container roots; set / replace / clear; set after clear of the same key) *)
+(* Definitions: coq/model/ThriftDomSlots.v; proofs: coq/proofs/ThriftDomHistoryProofs.v.                             *)
+(* ================================================================================================================ *)
+From DG Require Import ThriftDomSlots ThriftDomHistoryProofs.
+
+(* the value an edited tree denotes, for EVERY container kind and EVERY history: the value of the edited slots.
+   aslots_step is the value-level edit as the code does it: a set replaces the first slot with the key — a cleared slot
+   is revived in place —, appends when the key is new (never by index); a clear empties the slot. *)
+Theorem C05_tree_history_slots : forall ops t et kt raw kids,
+  val_of_dom (fold_left dom_step ops (DNode t et kt raw kids)) =
+  val_of_slots t et kt (fold_left aslots_step ops (slots_of kids)).
+Proof. exact tree_history_slots. Qed.
+Print Assumptions C05_tree_history_slots.
+
+(* FULL statement: any non-empty container root (struct, list, set, map with string / integer / other keys), recursive or
+   lazy load, any history of typed edits (keys of the container's key kind, values of its element type):
+     marshal (fold dom_step ops (load (encode v))) = encode v'      with v' = the value of the edited slots,
+     wf v'                                                           (counts = number of non-empty children, types kept),
+     hence the marshalled bytes DECODE to v' (decode_encode). *)
+Theorem C05_tree_history_full : forall rec v ops,
+  wf v = true -> kids_of DLeaf v <> [] ->
+  Forall (op_typed (type_of v) (et_of v) (kt_of v)) ops ->
+  zlen (init_slots v) + zlen ops < 2 ^ 31 ->
+  exists v',
+    val_of_slots (type_of v) (et_of v) (kt_of v) (fold_left aslots_step ops (init_slots v)) = Some v' /\
+    marshal (tree_of_dom (fold_left dom_step ops (dom_of rec false v))) = Some (encode v') /\
+    wf v' = true /\
+    decode (S (length (encode v'))) (type_of v') (encode v') = Some (v', []).
+Proof. exact tree_history_full. Qed.
+Print Assumptions C05_tree_history_full.
+
+(* well-formedness alone, for any typed slot list *)
+Theorem C05_wf_of_slots : forall t et kt s v, slots_wf t et kt s -> hdr_typed t et kt -> zlen s < 2 ^ 31 ->
+  val_of_slots t et kt s = Some v -> wf v = true.
+Proof. exact wf_of_slots. Qed.
+Print Assumptions C05_wf_of_slots.
+
+(* struct and map roots with distinct keys, ANY typed history incl. set after clear: v' and the plainly edited value
+   fold ast_step ops v (replace or append; remove) have the same fields / entries — equality up to their order, which
+   is all "the well-formed encoding of the edited tree" fixes for structs and maps (the code revives a cleared slot in
+   place, ast_step appends: same finite map, other position) *)
+Theorem C05_tree_history_ast_ext : forall v ops, wf v = true -> type_of v = T_STRUCT \/ type_of v = T_MAP ->
+  NoDup (map fst (init_slots v)) ->
+  Forall (op_typed (type_of v) (et_of v) (kt_of v)) ops ->
+  forall v', val_of_slots (type_of v) (et_of v) (kt_of v) (fold_left aslots_step ops (init_slots v)) = Some v' ->
+  forall k, vget v' k = vget (fold_left ast_step ops v) k.
+Proof. exact tree_history_ast_ext. Qed.
+Print Assumptions C05_tree_history_ast_ext.
+
+(* list and set roots: histories of sets by index are EXACTLY the plain value edits (order is fixed for lists); with
+   clears the exact value is the one of C05_tree_history_slots: the elements in slot order without the cleared ones,
+   a later set of a cleared index revives that position *)
+Theorem C05_list_history_sets : forall et es ops, Forall index_set_op ops ->
+  val_of_slots T_LIST et 0 (fold_left aslots_step ops (idx_slots 0 es)) = Some (fold_left ast_step ops (VList et es)) /\
+  val_of_slots T_SET et 0 (fold_left aslots_step ops (idx_slots 0 es)) = Some (fold_left ast_step ops (VSet et es)).
+Proof. exact list_history_sets. Qed.
+Print Assumptions C05_list_history_sets.
+
+(* ---------------- the hypotheses are satisfiable ---------------- *)
+(* a map history with a set AFTER a clear of the same key (revived in place) and a new key *)
+Definition ex_map_ops : list top :=
+  [OClear (KStr [107; 49]); OSet (KStr [113]) (VI32 1); OSet (KStr [107; 49]) (VI32 8); OGet (KStr [107; 50]); OClear (KStr [107; 50])].
+Example ex_map_typed : Forall (op_typed (type_of ex_map) (et_of ex_map) (kt_of ex_map)) ex_map_ops.
+Proof.
+  unfold ex_map_ops. repeat (apply Forall_cons || apply Forall_nil); cbn; try exact I;
+  repeat split; try reflexivity; try (unfold zlen; cbn; lia); try (right; reflexivity).
+Qed.
+Example ex_map_nodup : NoDup (map fst (init_slots ex_map)).
+Proof. cbn. repeat constructor; cbn; intuition discriminate. Qed.
+Example ex_map_history_value :
+  val_of_slots (type_of ex_map) (et_of ex_map) (kt_of ex_map) (fold_left aslots_step ex_map_ops (init_slots ex_map)) =
+  Some (VMap T_STRING T_I32 [(VString [107; 49], VI32 8); (VString [113], VI32 1)]).
+Proof. vm_compute. reflexivity. Qed.
+(* the plain value edit appends the re-set key instead: same entries, other order *)
+Example ex_map_history_ast : fold_left ast_step ex_map_ops ex_map = VMap T_STRING T_I32 [(VString [113], VI32 1); (VString [107; 49], VI32 8)].
+Proof. vm_compute. reflexivity. Qed.
+Example ex_map_history_marshal :
+  marshal (tree_of_dom (fold_left dom_step ex_map_ops (dom_of true false ex_map))) =
+  Some (encode (VMap T_STRING T_I32 [(VString [107; 49], VI32 8); (VString [113], VI32 1)])).
+Proof. vm_compute. reflexivity. Qed.
+(* struct history of ex_ops (above) is typed too *)
+Example ex_struct_typed : Forall (op_typed (type_of ex_val) (et_of ex_val) (kt_of ex_val)) ex_ops.
+Proof.
+  unfold ex_ops. repeat (apply Forall_cons || apply Forall_nil); cbn; try exact I;
+  repeat split; try lia; try reflexivity; try (left; reflexivity).
+Qed.
+(* a list history: set, clear, set of the cleared index (revived at its position) *)
+Example ex_list_history :
+  val_of_slots T_LIST T_I32 0 (fold_left aslots_step [OSet (KIndex 1) (VI32 7); OClear (KIndex 0); OSet (KIndex 0) (VI32 9)]
+                                 (init_slots (VList T_I32 [VI32 1; VI32 2; VI32 3]))) = Some (VList T_I32 [VI32 9; VI32 7; VI32 3]).
+Proof. vm_compute. reflexivity. Qed.
